@@ -58,7 +58,9 @@ func (r *Result) add(rule, construct, where, detail string, ok bool) *Ob {
 	return o
 }
 
-func (r *Result) ok(rule, construct, where, detail string) { r.add(rule, construct, where, detail, true) }
+func (r *Result) ok(rule, construct, where, detail string) {
+	r.add(rule, construct, where, detail, true)
+}
 func (r *Result) bad(rule, construct, where, detail string) {
 	r.add(rule, construct, where, detail, false)
 }
